@@ -177,6 +177,11 @@ double vnacal_get_fmin(const vnacal_t *vcp, int ci)
     if ((calp = _vnacal_get_calibration(vcp, ci)) == NULL) {
 	return HUGE_VAL;
     }
+    if (calp->cal_frequencies < 1) {
+	_vnacal_error(vcp, VNAERR_USAGE, "vnacal_get_fmin: "
+		"calibration %d has no frequencies", ci);
+	return HUGE_VAL;
+    }
     return calp->cal_frequency_vector[0];
 }
 
@@ -190,6 +195,11 @@ double vnacal_get_fmax(const vnacal_t *vcp, int ci)
     const vnacal_calibration_t *calp;
 
     if ((calp = _vnacal_get_calibration(vcp, ci)) == NULL) {
+	return HUGE_VAL;
+    }
+    if (calp->cal_frequencies < 1) {
+	_vnacal_error(vcp, VNAERR_USAGE, "vnacal_get_fmax: "
+		"calibration %d has no frequencies", ci);
 	return HUGE_VAL;
     }
     return calp->cal_frequency_vector[calp->cal_frequencies - 1];
